@@ -6,7 +6,7 @@ import FeatModel.Lemmas.C15TabS3
 import FeatModel.Lemmas.C15TabH1
 import FeatModel.Lemmas.C15TabH2a
 import FeatModel.Lemmas.C15TabH2b
-import FeatModel.Lemmas.C15TabH3
+import FeatModel.Lemmas.C15TabH3T
 /-! From the kernel-checked Boolean table checks to statements about all evaluation points. -/
 namespace FeatModel.FE
 open FeatModel.Poly
